@@ -98,11 +98,12 @@ def replay_dispatch(o, workdir):
         def solve_irrefutably(self, keys):
             return False
 
-    for f in ("request.txt", "argv.txt"):
-        try:
-            os.remove(os.path.join(workdir, f))
-        except OSError:
-            pass
+    for f in os.listdir(workdir):
+        if f in ("request.txt", "argv.txt") or f.startswith(("request_", "reply_")):
+            try:
+                os.remove(os.path.join(workdir, f))
+            except OSError:
+                pass
     os.environ["FAKE_SUGAR_DIR"] = str(workdir)
     try:
         cfg.default_backend = o["cfg"]["backend"]
